@@ -27,7 +27,9 @@ inline arr_real arange(real_t stop) {
 }
 
 inline arr_real arange(int start, int stop, int step = 1) {
-    const auto n = (int)std::round((stop - start) / double(step));
+    DSPLIB_ASSERT(step != 0, "arange step cannot be zero");
+    //number of k >= 0 with start + k*step strictly before stop
+    const auto n = (int)std::max(0.0, std::ceil((stop - start) / double(step)));
     arr_real r(n);
     for (int i = 0; i < n; ++i) {
         r[i] = start;
